@@ -23,7 +23,7 @@ MC_CONSTS = {
                         MultCounts="NoMult", MaxDepth=2, MaxOpen=2, EmitAll="FALSE"),
     "thorough_plain": dict(MaxLen=7, NodeToks="Nodes3", SymToks="SymQuick", RingToks="Rings3",
                            MultCounts="NoMult", MaxDepth=3, MaxOpen=2, EmitAll="FALSE"),
-    "quick_mult": dict(MaxLen=7, NodeToks="Nodes2", SymToks="SymOne", RingToks="Rings1",
+    "quick_mult": dict(MaxLen=7, NodeToks="Nodes2", SymToks="SymQuick", RingToks="Rings1",
                        MultCounts="Mult2", MaxDepth=2, MaxOpen=1, EmitAll="FALSE"),
     "thorough_mult": dict(MaxLen=8, NodeToks="Nodes2", SymToks="SymQuick", RingToks="Rings1",
                           MultCounts="Mult13", MaxDepth=2, MaxOpen=1, EmitAll="FALSE"),
